@@ -277,11 +277,47 @@ func (w *worker) runPT(i int, p ptCase, name string) {
 	world.AddAdmission(rejectInvalid)
 	world.MustSeed("user", w.xrd)
 	var ts []map[string]any
+	rng := c.Rng("pt-checks", i)
+	// readiness checks with a known verdict on the base object below
+	passing := func(k int) []map[string]any {
+		return []map[string]any{
+			{"type": "None"},
+			{"type": "MatchString", "fieldPath": "spec.forProvider.v", "matchString": fmt.Sprint(k)},
+			{"type": "NonEmpty", "fieldPath": "spec.forProvider.v"},
+			{"type": "MatchTrue", "fieldPath": "spec.forProvider.on"},
+			{"type": "MatchFalse", "fieldPath": "spec.forProvider.off"},
+			{"type": "MatchInteger", "fieldPath": "spec.forProvider.n", "matchInteger": int64(7)},
+		}
+	}
+	failing := []map[string]any{
+		{"type": "MatchString", "fieldPath": "spec.forProvider.v", "matchString": "never-matches"},
+		{"type": "NonEmpty", "fieldPath": "spec.forProvider.absent"},
+		{"type": "MatchTrue", "fieldPath": "spec.forProvider.off"},
+		{"type": "MatchFalse", "fieldPath": "spec.forProvider.on"},
+		{"type": "MatchInteger", "fieldPath": "spec.forProvider.n", "matchInteger": int64(8)},
+		{"type": "MatchCondition", "matchCondition": map[string]any{"type": "Ready", "status": "True"}},
+	}
 	for k, o := range p.Outcomes {
-		t := map[string]any{"name": fmt.Sprintf("r%d", k), "base": nopObj("NopA", fmt.Sprint(k)), "readinessChecks": []any{map[string]any{"type": "None"}}}
+		base := nopObj("NopA", fmt.Sprint(k))
+		fp := base["spec"].(map[string]any)["forProvider"].(map[string]any)
+		fp["on"], fp["off"], fp["n"] = true, false, int64(7)
+		// a list of 1..3 checks, every one passing
+		var checks []any
+		for n := 1 + rng.IntN(3); n > 0; n-- {
+			ps := passing(k)
+			checks = append(checks, ps[rng.IntN(len(ps))])
+		}
+		t := map[string]any{"name": fmt.Sprintf("r%d", k), "base": base, "readinessChecks": checks}
 		switch o {
 		case "unready":
-			t["readinessChecks"] = []any{map[string]any{"type": "MatchString", "fieldPath": "spec.forProvider.v", "matchString": "never-matches"}}
+			// ... except one, at a random position
+			bad := failing[rng.IntN(len(failing))]
+			at := rng.IntN(len(checks) + 1)
+			checks = append(checks[:at:at], append([]any{bad}, checks[at:]...)...)
+			if rng.IntN(4) == 0 {
+				checks = []any{bad}
+			}
+			t["readinessChecks"] = checks
 		case "invalid":
 			t["base"] = nopObj("NopInvalid", fmt.Sprint(k))
 		case "renderfail":
